@@ -13,7 +13,7 @@
 myth_join_counter_t JC;
 volatile int decs_begun; volatile int decs_done; int released[4];
 void verif_init(void){ verif_model_init(); myth_join_counter_init_body(&JC, 0, NDEC); }
-static inline void dec(int me){ (void)me; decs_begun++; myth_join_counter_dec_body(&JC); decs_done++; }
+static inline void dec(int me){ (void)me; __sync_fetch_and_add(&decs_begun, 1); myth_join_counter_dec_body(&JC); __sync_fetch_and_add(&decs_done, 1); }
 static inline void waiter(int me){
   myth_join_counter_wait_body(&JC);
   verif_check(decs_begun == NDEC, "C07 wait returns only after N decrements have been performed");
